@@ -1,14 +1,14 @@
 import XPathV.Theorems.C08
-#print axioms XPathV.Theorems.C08.numeric_ops_ok
 #print axioms XPathV.Theorems.C08.asNumber_spec
 #print axioms XPathV.Theorems.C08.arith_operands_spec
 #print axioms XPathV.Theorems.C08.arith_literals_spec
 #print axioms XPathV.Theorems.C08.literal_is_lexeme
 #print axioms XPathV.Theorems.C08.number_to_string_spec
 #print axioms XPathV.Theorems.C08.count_spec
-#print axioms XPathV.Theorems.C08.numeric_sources_ok
 #print axioms XPathV.Theorems.C08.C08_arith_trees
 #print axioms XPathV.Theorems.C08.C08_main
 #print axioms XPathV.Theorems.C08.C08_evaluate
 #print axioms XPathV.Theorems.C08.C08_same_operation
 #print axioms XPathV.Theorems.C08.C08_string_of_number
+#print axioms XPathV.Theorems.C08.numeric_ops_ok
+#print axioms XPathV.Theorems.C08.numeric_sources_ok
